@@ -112,7 +112,7 @@ Section Sem.
     | S fuel' => task_step (tval fuel') k
     end.
 
-  Definition fuel_of : nat := S (S (2 * length (gtasks f))).
+  Definition fuel_of : nat := S (S (4 * length (gtasks f))).
 
   Definition results_of : list tres := map (tresult fuel_of) (seq 0 (length (gtasks f))).
 
